@@ -1,20 +1,21 @@
 #!/bin/bash
 # usage: tools/try_benign.sh <dir with patch.diff> <PID> [tier]
+# BASE=<commit> tests the patch on the pydl commit it was written for (when a later fix: commit touches the same lines).
 # A behaviour-preserving change (the property still holds) must NOT make the property's check raise an alarm.
 # Applies the patch in a scratch worktree of /repo, runs pydl's tests and the check against it.
 D="$1"; PID="$2"; TIER="${3:-quick}"
 WT=$(mktemp -d /tmp/ben_XXXXXX); rmdir $WT
-git -C /repo worktree add --detach $WT HEAD -q || exit 2
+git -C /repo worktree add --detach $WT ${BASE:-HEAD} -q || exit 2
 cd $WT
-git apply $D/patch.diff || { echo "PATCH DOES NOT APPLY"; git -C /repo worktree remove --force $WT; exit 2; }
+git apply $D/patch.diff 2>/dev/null || git apply --3way $D/patch.diff || { echo "PATCH DOES NOT APPLY"; git -C /repo worktree remove --force $WT; exit 2; }
 /venv/bin/python -m pytest -q -p no:cacheprovider --timeout=900 2>&1 | tail -1 | sed 's/\x1b\[[0-9;]*m//g' | sed 's/^/tests with change: /'
-cd /verif
+cd ${VERIF_DIR:-/verif}
 cp evidence/$PID.json $WT/.evidence.json 2>/dev/null
 PYDL_SRC=$WT bin/check $PID --tier $TIER > $WT/.check.log 2>&1; RC=$?
 echo "check $PID ($TIER) with benign change: exit $RC, $(grep -c '^VIOLATION' $WT/.check.log) VIOLATION lines"
 grep -A1 '^VIOLATION' $WT/.check.log | grep -v '^VIOLATION\|^--' | head -4 | cut -c1-400
 tail -1 $WT/.check.log | cut -c1-200
-if [ $RC -ne 0 ]; then mkdir -p /tmp/benlogs; cp $WT/.check.log /tmp/benlogs/$(basename $D)_$PID.check.log; cp -r /verif/replays/$PID /tmp/benlogs/$(basename $D)_$PID.replays 2>/dev/null; fi
+if [ $RC -ne 0 ]; then mkdir -p /tmp/benlogs; cp $WT/.check.log /tmp/benlogs/$(basename $D)_$PID.check.log; cp -r ${VERIF_DIR:-/verif}/replays/$PID /tmp/benlogs/$(basename $D)_$PID.replays 2>/dev/null; fi
 cp $WT/.evidence.json evidence/$PID.json 2>/dev/null
 git -C /repo worktree remove --force $WT
-rm -rf /verif/replays/$PID
+rm -rf ${VERIF_DIR:-/verif}/replays/$PID
